@@ -7,7 +7,7 @@ ENG = "tla-trace"
 T = "TLC: "
 CHECKS = {
  "C01": ("model_checking", T+"exhaustive MC of DeflateParams (level clamp) + trace validation of every one-shot call against the RFC 1951/1950 acceptor spec", "3/C01"),
- "C02": ("model_checking", T+"trace validation of every compress()/compress_to_output() call against DeflateContract and of the concatenated output against the acceptor; MC of DeflateParams", "3/C02"),
+ "C02": ("model_checking", T+"trace validation of every compress()/compress_to_output() call against DeflateContract, of the match finder's state (hook) against the DeflateLZ rules, and of the concatenated output against the acceptor; MC of DeflateParams, DeflateCore, DeflateLZ", "3/C02"),
  "C03": ("model_checking", T+"trace validation of all decoder entry points against InflateContract with the acceptor's verdict on each stream", "3/C03"),
  "C04": ("model_checking", T+"acceptor (Produce mode) judges mutated streams, InflateContract forbids Done on rejected/starved streams and rejection of proper prefixes", "3/C04"),
  "C05": ("model_checking", T+"trace validation of random call histories (all flag sets, geometries, positions) against the total-function rules of InflateContract", "3/C05"),
@@ -15,7 +15,7 @@ CHECKS = {
  "C07": ("model_checking", T+"schedule-equivalence rules of the trace spec over every cut point / budget schedule, valid and invalid streams", "3/C07"),
  "C08": ("model_checking", T+"geometry sweep validated against the region/status rules of InflateContract; vector-helper limit rules", "3/C08"),
  "C09": ("model_checking", T+"exhaustive MC of the header function over all configurations + acceptor-validated header/trailer of real compressor output", "3/C09"),
- "C10": ("model_checking", T+"exhaustive MC of routing/capability per configuration + acceptor token statistics of real output judged against DeflateParams requirements", "3/C10"),
+ "C10": ("model_checking", T+"exhaustive MC of routing/capability per configuration + acceptor token statistics of real output judged against DeflateParams requirements; MC of DeflateHuff (code construction, length limiter, code-length packer) whose rules TLC evaluates on the real optimize_table / start_dynamic_block for every small count vector (hook)", "3/C10"),
  "C11": ("model_checking", T+"exhaustive MC of declared window vs route distance capability + acceptor-measured maximum distance vs declared window", "3/C11"),
  "C12": ("model_checking", T+"acceptor in prefix mode at every qualifying flush return; full-flush cut tracking in the acceptor", "3/C12"),
  "C13": ("model_checking", T+"trace validation of random and canonical inflate() call sequences against the InflateStream contract rules", "3/C13"),
